@@ -277,3 +277,4 @@ _add("C04", "arctan2: the angle of the SI magnitudes as a pure number (invarianc
 _add("C01", "Item assignment a[i] = q is under contract: refused for a value of another dimension, target and value untouched.")
 _add("C18", "Item assignment: a refused assignment leaves the target as it was; a successful one writes the value's physical "
             "quantity in the target's unit into the selected elements only, keeps the target's unit and the value.")
+_add("C16", "x.copy() is proved to return independent data with the same numbers, dtype, unit, class and name.")
